@@ -566,6 +566,65 @@ for _arg in sys.argv[1:]:
     if _m and _m.group(1) in SPEC_OF:
         _preps(_m.group(1))
 
+
+# ---- several chains rendered into ONE render context (through include, which shares the context): each renders as it does
+# on its own; nothing of one chain's block stacks is left for the next template ---------------------------------------------
+_SEQ_P = {
+    "base": "<{% block title %}base title{% endblock %}|{% block body %}base body{% endblock %}>",
+    "mid": "{% extends 'base' %}{% block body %}mid body{% endblock %}",
+    "leaf": "{% extends 'mid' %}{% block title %}leaf title/{{ block.super }}{% endblock %}",
+    "base2": "({% block title %}b2 title{% endblock %}{% block extra %}x{% endblock %})",
+    "leaf2": "{% extends 'base2' %}{% block extra %}[{{ block.super }}]{% endblock %}",
+    "req": "{% block title required %}{% endblock %}!",
+    "req_leaf": "{% extends 'req' %}{% block title %}t{% endblock %}",
+    "plain": "{% block title %}plain{% endblock %}",
+}
+_SEQ_NAMES = sorted(_SEQ_P)
+_SEQ_ENV = Environment(extra=True, loader=CachingDictLoader(dict(_SEQ_P), auto_reload=False))
+_SEQ_T = {}
+
+
+def _seq_render(src, use_async):
+    from liquid.exceptions import LiquidError
+    if src not in _SEQ_T:
+        _SEQ_T[src] = _SEQ_ENV.from_string(src)
+    try:
+        if use_async:
+            from vf.hx import drive
+            return drive(_SEQ_T[src].render_async())
+        return _SEQ_T[src].render()
+    except LiquidError as e:
+        return "ERR:" + type(e).__name__
+
+
+def sequence_case(i1, i2, i3, use_async):
+    names = [_SEQ_NAMES[i] for i in (i1, i2, i3)]
+    alone = [_seq_render("{% include '" + n + "' %}", use_async) for n in names]
+    together = _seq_render("|".join("{% include '" + n + "' %}" for n in names), use_async)
+    if any(a.startswith("ERR:") for a in alone):
+        first = [a for a in alone if a.startswith("ERR:")][0]
+        return together, first        # strict mode: the first failing include ends the render with its error
+    return together, "|".join(alone)
+
+
+def c18_chains_in_one_context(i1: int, i2: int, i3: int, use_async: bool) -> bool:
+    """
+    pre: 0 <= i1 <= 7 and 0 <= i2 <= 7 and 0 <= i3 <= 7
+    post: _
+    """
+    if excluded("c18_chains_in_one_context", locals()):
+        return True
+    from vf.hx import cbool, cint, untraced
+    args = (cint(i1, 0, 7), cint(i2, 0, 7), cint(i3, 0, 7), cbool(use_async))
+    got, exp = untraced(lambda: sequence_case(*args))
+    return finish(got == exp)
+
+
+DETAIL["c18_chains_in_one_context"] = lambda i1, i2, i3, use_async: {"includes": [_SEQ_NAMES[i] for i in (i1, i2, i3)], "observed": sequence_case(i1, i2, i3, use_async)[0],
+                                                                      "each on its own": sequence_case(i1, i2, i3, use_async)[1]}
+CONDITIONS.append({"fn": "c18_chains_in_one_context", "quick": 60, "thorough": 120, "sel_only": True,
+                   "bounds": "3 includes out of 8 templates (two bases, chains of length 2 and 3, a required block, a template with a block and no extends), sync and async"})
+
 ASSUMPTIONS = [
     "program dimension = finite generated family (enumerated, not symbolic): chains of 1..4 templates over the block pool {a, b}; "
     "per template and block: absent / plain / uses block.super / block.super inside a for loop / required; one block nested in the other "
